@@ -738,3 +738,39 @@ def chain_spec(rng, n, depth):
             decls.append(("union", names[i], "int", "k", groups, default))
     rng.shuffle(decls)
     return decls
+
+
+TRIVIA_CLASSES = [" ", "\t", "\n", "\r\n", "   ", " \n\t ", "/**/", "/* c */", "/*x\ny*/", "/* * / */", "// n\n", "//\n",
+                  " /* a */ // b\n /* c */ ", "/* struct s { int a; }; */", "// /* not closed\n"]
+
+
+TRIVIA_QUICK = [" ", "\n", "\r\n", "/**/", "/* c */", "/*x\ny*/", "// n\n", "//\n", " /* a */ // b\n /* c */ "]
+
+
+def gap_sweep(decls, classes=None):
+    """the specification printed minimally, and once per (gap between two tokens, trivia class)
+    with that trivia inserted at that gap only: yields (text, gap, trivia)"""
+    toks = []
+    for d in decls:
+        toks += tokens(d)
+
+    def render(gap=None, triv=""):
+        out = []
+        for i, (kind, text) in enumerate(toks):
+            out.append(text)
+            nxt = toks[i + 1] if i + 1 < len(toks) else None
+            ins = triv if gap == i else ""
+            if kind == "BT":
+                out.append(" " + ins)          # the atomic basic_type needs white space right after it
+                continue
+            need = nxt is not None and kind in ("KW", "ID") and nxt[0] in ("KW", "ID", "BT")
+            if ins:
+                # a comment glues nothing: `a/**/b` are two tokens; keep a blank only where white space is the trivia
+                out.append(ins if not need or ins[0] in " \t\r\n/" else " " + ins)
+            elif need:
+                out.append(" ")
+        return "".join(out)
+    yield render(), None, ""
+    for gap in range(len(toks)):
+        for t in (classes or TRIVIA_CLASSES):
+            yield render(gap, t), gap, t
